@@ -644,6 +644,103 @@ pub fn run(p: &[String]) -> Vec<String> {
             }
             if problems.is_empty() { vec![hex("all cells show their own strings")] } else { problems.iter().take(4).map(|s| hex(s)).collect() }
         }
+        // ---- generic struct round trips (C05 / C06 kernels)
+        "struct_roundtrip" => {
+            // struct "setter=value;..." : the named settings applied through the public API on a real workbook, saved, reloaded;
+            // Debug rendering of the struct before and after
+            use umya_spreadsheet::*;
+            let (which, spec) = (unhex(&p[1]), unhex(&p[2]));
+            let kv: Vec<(String, String)> = spec.split(';').filter(|s| !s.is_empty()).map(|s| { let (k, v) = s.split_once('=').unwrap(); (k.to_string(), v.to_string()) }).collect();
+            let text = |v: &str| -> String { String::from_utf8((0..v.len()).step_by(2).map(|i| u8::from_str_radix(&v[i..i + 2], 16).unwrap()).collect()).unwrap() };
+            let num = |v: &str| -> u32 { v.parse::<f64>().unwrap() as u32 };
+            let flag = |v: &str| -> bool { v == "1" || v == "True" || v == "true" };
+            let last = |k: &str| -> String { k.rsplit("::").next().unwrap().rsplit('/').next().unwrap().to_string() };
+            let mut book = new_file();
+            {
+                let ws = book.get_sheet_by_name_mut("Sheet1").unwrap();
+                ws.get_cell_mut((1, 1)).set_value_string("x");
+                match which.as_str() {
+                    "alignment" => { let a = ws.get_cell_mut((1, 1)).get_style_mut().get_alignment_mut(); for (k, v) in &kv { match k.as_str() {
+                        "set_horizontal" => a.set_horizontal([HorizontalAlignmentValues::Center, HorizontalAlignmentValues::CenterContinuous, HorizontalAlignmentValues::Distributed, HorizontalAlignmentValues::Fill, HorizontalAlignmentValues::General, HorizontalAlignmentValues::Justify, HorizontalAlignmentValues::Left, HorizontalAlignmentValues::Right][num(v) as usize].clone()),
+                        "set_vertical" => a.set_vertical([VerticalAlignmentValues::Bottom, VerticalAlignmentValues::Center, VerticalAlignmentValues::Distributed, VerticalAlignmentValues::Justify, VerticalAlignmentValues::Top][num(v) as usize].clone()),
+                        "set_wrap_text" => a.set_wrap_text(flag(v)), "set_text_rotation" => a.set_text_rotation(num(v)), _ => panic!("setter {}", k) } } }
+                    "protection" => { let a = ws.get_cell_mut((1, 1)).get_style_mut().get_protection_mut(); for (k, v) in &kv { match k.as_str() { "set_locked" => a.set_locked(flag(v)), "set_hidden" => a.set_hidden(flag(v)), _ => panic!("setter {}", k) } } }
+                    "page_margins" => { let a = ws.get_page_margins_mut(); for (k, v) in &kv { let x = v.parse::<f64>().unwrap(); match k.as_str() { "set_left" => { a.set_left(x); } "set_right" => { a.set_right(x); } "set_top" => { a.set_top(x); } "set_bottom" => { a.set_bottom(x); } "set_header" => { a.set_header(x); } "set_footer" => { a.set_footer(x); } _ => panic!("setter {}", k) } } }
+                    "pane" => { let mut pane = Pane::default(); for (k, v) in &kv { match k.as_str() {
+                        "set_horizontal_split" => { pane.set_horizontal_split(v.parse().unwrap()); } "set_vertical_split" => { pane.set_vertical_split(v.parse().unwrap()); }
+                        "set_active_pane" => { pane.set_active_pane([PaneValues::BottomLeft, PaneValues::BottomRight, PaneValues::TopLeft, PaneValues::TopRight][num(v) as usize].clone()); }
+                        "set_state" => { pane.set_state([PaneStateValues::Frozen, PaneStateValues::FrozenSplit, PaneStateValues::Split][num(v) as usize].clone()); } _ => panic!("setter {}", k) } }
+                        ws.get_sheet_views_mut().get_sheet_view_list_mut()[0].set_pane(pane); }
+                    "sheet_protection" => { let a = ws.get_sheet_protection_mut(); for (k, v) in &kv { match k.as_str() {
+                        "set_sheet" => { a.set_sheet(flag(v)); } "set_objects" => { a.set_objects(flag(v)); } "set_delete_rows" => { a.set_delete_rows(flag(v)); } "set_insert_columns" => { a.set_insert_columns(flag(v)); }
+                        "set_delete_columns" => { a.set_delete_columns(flag(v)); } "set_insert_hyperlinks" => { a.set_insert_hyperlinks(flag(v)); } "set_auto_filter" => { a.set_auto_filter(flag(v)); } "set_scenarios" => { a.set_scenarios(flag(v)); }
+                        "set_format_cells" => { a.set_format_cells(flag(v)); } "set_format_columns" => { a.set_format_columns(flag(v)); } "set_insert_rows" => { a.set_insert_rows(flag(v)); } "set_format_rows" => { a.set_format_rows(flag(v)); }
+                        "set_pivot_tables" => { a.set_pivot_tables(flag(v)); } "set_select_locked_cells" => { a.set_select_locked_cells(flag(v)); } "set_select_unlocked_cells" => { a.set_select_unlocked_cells(flag(v)); } "set_sort" => { a.set_sort(flag(v)); }
+                        "set_algorithm_name" => { a.set_algorithm_name(text(v)); } "set_hash_value" => { a.set_hash_value(text(v)); } "set_salt_value" => { a.set_salt_value(text(v)); } "set_spin_count" => { a.set_spin_count(num(v)); } _ => panic!("setter {}", k) } } }
+                    "data_validation" => { let mut a = DataValidation::default(); a.get_sequence_of_references_mut().set_sqref("A1"); for (k, v) in &kv { match k.as_str() {
+                        "set_type" => { a.set_type([DataValidationValues::Custom, DataValidationValues::Date, DataValidationValues::Decimal, DataValidationValues::List, DataValidationValues::None, DataValidationValues::TextLength, DataValidationValues::Time, DataValidationValues::Whole][num(v) as usize].clone()); }
+                        "set_operator" => { a.set_operator([DataValidationOperatorValues::Between, DataValidationOperatorValues::Equal, DataValidationOperatorValues::GreaterThan, DataValidationOperatorValues::GreaterThanOrEqual, DataValidationOperatorValues::LessThan, DataValidationOperatorValues::LessThanOrEqual, DataValidationOperatorValues::NotBetween, DataValidationOperatorValues::NotEqual][num(v) as usize].clone()); }
+                        "set_allow_blank" => { a.set_allow_blank(flag(v)); } "set_show_input_message" => { a.set_show_input_message(flag(v)); } "set_show_error_message" => { a.set_show_error_message(flag(v)); }
+                        "set_prompt_title" => { a.set_prompt_title(text(v)); } "set_error_title" => { a.set_error_title(text(v)); } "set_error_message" => { a.set_error_message(text(v)); } "set_prompt" => { a.set_prompt(text(v)); }
+                        "set_formula1" => { a.set_formula1(text(v)); } "set_formula2" => { a.set_formula2(text(v)); } _ => panic!("setter {}", k) } }
+                        let mut dvs = DataValidations::default(); dvs.add_data_validation_list(a); ws.set_data_validations(dvs); }
+                    "font" => { let a = ws.get_cell_mut((1, 1)).get_style_mut().get_font_mut(); for (k, v) in &kv { match k.as_str() {
+                        "set_name" => { a.set_name(text(v)); } "set_size" => { a.set_size(v.parse().unwrap()); } "set_bold" => { a.set_bold(flag(v)); } "set_italic" => { a.set_italic(flag(v)); } "set_strikethrough" => { a.set_strikethrough(flag(v)); }
+                        "set_family" => { a.set_family(num(v) as i32); } "set_charset" => { a.set_charset(num(v) as i32); } "set_underline" => { a.set_underline(text(v)); } "set_scheme" => { a.set_scheme(text(v)); } _ => panic!("setter {}", k) } } }
+                    "header_footer" => { for (k, v) in &kv { if k.contains("odd_header") { ws.get_header_footer_mut().get_odd_header_mut().set_value(text(v)); } else { ws.get_header_footer_mut().get_odd_footer_mut().set_value(text(v)); } } }
+                    "page_setup" => { let a = ws.get_page_setup_mut(); for (k, v) in &kv { match k.as_str() {
+                        "set_paper_size" => { a.set_paper_size(num(v)); } "set_orientation" => { a.set_orientation([OrientationValues::Default, OrientationValues::Landscape, OrientationValues::Portrait][num(v) as usize].clone()); } "set_scale" => { a.set_scale(num(v)); }
+                        "set_fit_to_height" => { a.set_fit_to_height(num(v)); } "set_fit_to_width" => { a.set_fit_to_width(num(v)); } "set_horizontal_dpi" => { a.set_horizontal_dpi(num(v)); } "set_vertical_dpi" => { a.set_vertical_dpi(num(v)); } _ => panic!("setter {}", k) } } }
+                    "borders" => { let a = ws.get_cell_mut((1, 1)).get_style_mut().get_borders_mut(); let styles = [BorderStyleValues::DashDot, BorderStyleValues::DashDotDot, BorderStyleValues::Dashed, BorderStyleValues::Dotted, BorderStyleValues::Double, BorderStyleValues::Hair, BorderStyleValues::Medium, BorderStyleValues::MediumDashDot, BorderStyleValues::MediumDashDotDot, BorderStyleValues::MediumDashed, BorderStyleValues::None, BorderStyleValues::SlantDashDot, BorderStyleValues::Thick, BorderStyleValues::Thin];
+                        for (k, v) in &kv { if k.starts_with("get_left_mut") { a.get_left_mut().set_style(styles[num(v) as usize].clone()); } else if k.starts_with("get_right_mut") { a.get_right_mut().set_style(styles[num(v) as usize].clone()); } else if k.starts_with("get_top_mut") { a.get_top_mut().set_style(styles[num(v) as usize].clone()); }
+                            else if k.starts_with("get_bottom_mut") { a.get_bottom_mut().set_style(styles[num(v) as usize].clone()); } else if k.starts_with("get_diagonal_mut") { a.get_diagonal_mut().set_style(styles[num(v) as usize].clone()); }
+                            else if k == "set_diagonal_up" { a.set_diagonal_up(flag(v)); } else if k == "set_diagonal_down" { a.set_diagonal_down(flag(v)); } else { panic!("setter {}", last(k)) } } }
+                    "pattern_fill" => { let argb = |v: &str| { let mut c = Color::default(); c.set_argb(text(v)); c }; let a = ws.get_cell_mut((1, 1)).get_style_mut().get_fill_mut().get_pattern_fill_mut(); for (k, v) in &kv { match k.as_str() {
+                        "set_pattern_type" => { a.set_pattern_type([PatternValues::DarkDown, PatternValues::DarkGray, PatternValues::DarkGrid, PatternValues::DarkHorizontal, PatternValues::DarkTrellis, PatternValues::DarkUp, PatternValues::DarkVertical, PatternValues::Gray0625, PatternValues::Gray125, PatternValues::LightDown, PatternValues::LightGray, PatternValues::LightGrid, PatternValues::LightHorizontal, PatternValues::LightTrellis, PatternValues::LightUp, PatternValues::LightVertical, PatternValues::MediumGray, PatternValues::None, PatternValues::Solid][num(v) as usize].clone()); }
+                        "set_foreground_color" => { a.set_foreground_color(argb(v)); } "set_background_color" => { a.set_background_color(argb(v)); } _ => panic!("setter {}", k) } } }
+                    "color" => { let a = ws.get_cell_mut((1, 1)).get_style_mut().get_font_mut().get_color_mut(); for (k, v) in &kv { match k.as_str() {
+                        "set_argb" => { a.set_argb(text(v)); } "set_indexed" => { a.set_indexed(num(v)); } "set_theme_index" => { a.set_theme_index(num(v)); } "set_tint" => { a.set_tint(v.parse().unwrap()); } _ => panic!("setter {}", k) } } }
+                    "sheet_view" => { let a = &mut ws.get_sheet_views_mut().get_sheet_view_list_mut()[0]; for (k, v) in &kv { match k.as_str() {
+                        "set_show_grid_lines" => { a.set_show_grid_lines(flag(v)); } "set_tab_selected" => { a.set_tab_selected(flag(v)); } "set_workbook_view_id" => { a.set_workbook_view_id(num(v)); }
+                        "set_view" => { a.set_view([SheetViewValues::Normal, SheetViewValues::PageBreakPreview, SheetViewValues::PageLayout][num(v) as usize].clone()); }
+                        "set_zoom_scale" => { a.set_zoom_scale(num(v)); } "set_zoom_scale_normal" => { a.set_zoom_scale_normal(num(v)); } "set_top_left_cell" => { a.set_top_left_cell(text(v)); } _ => panic!("setter {}", k) } } }
+                    "workbook_protection" => {}
+                    _ => panic!("struct {}", which),
+                }
+            }
+            if which == "workbook_protection" {
+                let a = book.get_workbook_protection_mut(); for (k, v) in &kv { match k.as_str() {
+                    "set_workbook_algorithm_name" => { a.set_workbook_algorithm_name(text(v)); } "set_workbook_hash_value" => { a.set_workbook_hash_value(text(v)); } "set_workbook_salt_value" => { a.set_workbook_salt_value(text(v)); } "set_workbook_password_raw" => { a.set_workbook_password_raw(text(v)); }
+                    "set_revisions_algorithm_name" => { a.set_revisions_algorithm_name(text(v)); } "set_revisions_hash_value" => { a.set_revisions_hash_value(text(v)); } "set_revisions_salt_value" => { a.set_revisions_salt_value(text(v)); } "set_revisions_password_raw" => { a.set_revisions_password_raw(text(v)); }
+                    "set_workbook_spin_count" => { a.set_workbook_spin_count(num(v)); } "set_revisions_spin_count" => { a.set_revisions_spin_count(num(v)); }
+                    "set_lock_revision" => { a.set_lock_revision(flag(v)); } "set_lock_structure" => { a.set_lock_structure(flag(v)); } "set_lock_windows" => { a.set_lock_windows(flag(v)); } _ => panic!("setter {}", k) } }
+            }
+            let show = |book: &Spreadsheet| -> String {
+                if which == "workbook_protection" { return format!("{:?}", book.get_workbook_protection()); }
+                let ws = book.get_sheet_by_name("Sheet1").unwrap();
+                match which.as_str() {
+                    "alignment" => format!("{:?}", ws.get_style((1, 1)).get_alignment()),
+                    "protection" => format!("{:?}", ws.get_style((1, 1)).get_protection()),
+                    "page_margins" => format!("{:?}", ws.get_page_margins()),
+                    "pane" => format!("{:?}", ws.get_sheets_views().get_sheet_view_list()[0].get_pane()),
+                    "sheet_protection" => format!("{:?}", ws.get_sheet_protection()),
+                    "data_validation" => format!("{:?}", ws.get_data_validations().map(|d| d.get_data_validation_list().to_vec())),
+                    "font" => format!("{:?}", ws.get_style((1, 1)).get_font()),
+                    "header_footer" => format!("{:?}", ws.get_header_footer()),
+                    "page_setup" => { let p = ws.get_page_setup(); format!("{} {:?} {} {} {} {} {}", p.get_paper_size(), p.get_orientation(), p.get_scale(), p.get_fit_to_height(), p.get_fit_to_width(), p.get_horizontal_dpi(), p.get_vertical_dpi()) }
+                    "borders" => format!("{:?}", ws.get_style((1, 1)).get_borders()),
+                    "pattern_fill" => format!("{:?}", ws.get_style((1, 1)).get_fill().map(|f| f.get_pattern_fill())),
+                    "color" => format!("{:?}", ws.get_style((1, 1)).get_font().map(|f| f.get_color())),
+                    "sheet_view" => { let v = &ws.get_sheets_views().get_sheet_view_list()[0]; format!("{} {} {} {:?} {} {} {}", v.get_show_grid_lines(), v.get_tab_selected(), v.get_workbook_view_id(), v.get_view(), v.get_zoom_scale(), v.get_zoom_scale_normal(), v.get_top_left_cell()) }
+                    _ => String::new(),
+                }
+            };
+            let before = show(&book);
+            let mut buf: Vec<u8> = Vec::new();
+            writer::xlsx::write_writer(&book, &mut buf).unwrap();
+            let back = reader::xlsx::read_reader(std::io::Cursor::new(buf), true).unwrap();
+            vec![hex(&before), hex(&show(&back))]
+        }
         // ---- C04
         "attr_generations" => {
             // text : attribute channels (internal hyperlink location, sheet name, table column name) through three save/load generations
